@@ -23,6 +23,10 @@ type ReplayFile struct {
 	Fatal       string     `json:"fatal_output,omitempty"` // Go runtime / race detector diagnostic when the worker died
 	TraceDigest string     `json:"trace_digest"`
 	Note        string     `json:"note,omitempty"`
+	// History: run indices (live tapes of Seed) that the same OS process had executed before this tape. Only set when the
+	// violation (a race report) does not reproduce from the tape alone because it depends on process-wide state of the
+	// code under test (lazily built package-level tables): the replay then executes those runs first, in one process.
+	History []uint64 `json:"process_history,omitempty"`
 }
 
 func Home() string {
